@@ -30,6 +30,8 @@ def term_of(port, label, ncid):
     return {"s": Sig("s"), "t": Sig("t"), "bus0": Slc(Sig("bus"), I(0)), "cat": Cat(Slc(Sig("bus"), I(1))),
             "nc": Nc(ncid), "b": Bund("b"), "c": Bund("c"), "anon": Anon(x=Sig("s"), y=Sig("v2")),
             "dict": AnonDict(x=Sig("t"), y=Sig("v2")),
+            # a member that is a reference to the OTHER instance's scalar port (which has, or gets, a connection of its own)
+            "anonp": Anon(x=Pref(other(inst), "a"), y=Sig("v2")), "dictp": AnonDict(x=Pref(other(inst), "a"), y=Sig("v2")),
             "pref": Pref(other(inst), pn)}[label]
 
 
@@ -85,6 +87,10 @@ def replay(args):
             return h.AnonymousBundle(x=ns["s"], y=ns["v2"])
         if label == "dict":
             return {"x": ns["t"], "y": ns["v2"]}          # dict shorthand: the library wraps it in an AnonymousBundle
+        if label == "anonp":
+            return h.AnonymousBundle(x=getattr(insts[other(inst)], "a"), y=ns["v2"])
+        if label == "dictp":
+            return {"x": getattr(insts[other(inst)], "a"), "y": ns["v2"]}
         if label == "pref":
             return getattr(insts[other(inst)], pn)
         raise ValueError(label)
@@ -103,7 +109,7 @@ def replay(args):
                         vids[id(v)] = f"v{len(vids) + 1}_{o['val']}"
                     ev["vid"] = vids[id(v)]
                 else:
-                    ev["vid"] = f"v{len(vids) + 1}_dict"
+                    ev["vid"] = f"v{len(vids) + 1}_{o['val']}"
                 if o["op"] == "replace":
                     io.replace(pn, v)
                 else:
@@ -210,10 +216,13 @@ def run(tier, seed, replay_file=None):
         o.cover["final_" + c2s] = o.cover.get("final_" + c2s, 0) + 1
         if not ok1:
             o.violations.append(Violation(clause="step:" + c1, case=case, features=fs, detail=traces[i] if len(o.violations) < 20 else None))
+        elif c2s == "rejected_valid":
+            # the history ends in a complete valid mapping: "the elaborated design contains exactly the final mapping" presupposes that it elaborates
+            o.violations.append(Violation(clause="final:valid_final_mapping_rejected", case=case, features=fs, detail={"exc": finals[i]["exc"]}))
         elif c2s in ("leaf_table", "observables", "partition"):
             o.violations.append(Violation(clause="final:" + c2s, case=case, features=fs, detail={"P": finals[i]["P"]} if len(o.violations) < 20 else None))
     o.distinct_nontrivial = nt
-    vals = ["s", "bus0", "cat", "pref", "nc", "b", "anon", "dict"]
+    vals = ["s", "bus0", "cat", "pref", "nc", "b", "anon", "dict", "anonp", "dictp"]
     o.required_cover = ["op_connect", "op_replace", "op_disconnect", "op_read", "final_ok_valid"] + ["replaced_" + v for v in vals] + ["replacing_" + v for v in vals]
     rnd = random.Random(seed)
     for i in rnd.sample(range(len(cases)), 2):
